@@ -127,7 +127,7 @@ def h_reps(i: int, j: int, pos: int) -> bool:
 
 # ------------------------------------------------------------------ coherence over histories
 STEPS = ['fp(v)', 'fp(t)', 'fp(view)', 'v[i]=x', 'v[slice]=seq', 'v[mask]=x', 'v[idx]=seq', 'v[idx dup]=seq', 'v[vec dup]=seq', 'v promote', 'v[i]=None', 't[i,j]=x', 't[i]=row', 't[:,j]=col', 'view[i]=x',
-         't.a=vec', 't region', 'read-only', 'failed write', 'rename']
+         't.a=vec', 't region', 'read-only', 'failed write', 'rename', 'derive v[slice]', 'derive v.copy', 'derive v[mask]', 'derive t[rows]', 'derive t[cols]', 'derive view.copy']
 
 
 def rebuild(x):
@@ -142,7 +142,7 @@ def _coh_body(steps, poss):
     view = t.cols()[1]
     live = {'v': v, 't': t, 'view(t.b)': view}
     for k, (st, p) in enumerate(zip(steps, poss)):
-        before = {nm: o.fingerprint() for nm, o in live.items()} if st in ('read-only', 'fp(v)', 'fp(t)', 'fp(view)', 'failed write', 'rename') else None
+        before = {nm: o.fingerprint() for nm, o in live.items()} if (st in ('read-only', 'fp(v)', 'fp(t)', 'fp(view)', 'failed write', 'rename') or st.startswith('derive')) else None
         try:
             if st == 'fp(v)': v.fingerprint()
             elif st == 'fp(t)': t.fingerprint()
@@ -174,6 +174,12 @@ def _coh_body(steps, poss):
                     pass
             elif st == 'rename':
                 t.rename_column('b', 'b'); v.name = 'w%d' % k
+            elif st == 'derive v[slice]': live['v[%d:] @%d' % (p, k)] = v[p:]
+            elif st == 'derive v.copy': live['v.copy @%d' % k] = v.copy()
+            elif st == 'derive v[mask]': live['v[mask] @%d' % k] = v[[i != p for i in range(3)]]
+            elif st == 'derive t[rows]': live['t[%d:] @%d' % (p, k)] = t[p:]
+            elif st == 'derive t[cols]': live['t[b,a] @%d' % k] = t['b', 'a']
+            elif st == 'derive view.copy': live['view.copy @%d' % k] = view.copy()
         except Exception as e:
             return H.fail('history %r: step %s raised %r' % (steps, st, e))
         if st == 't.a=vec':
@@ -185,7 +191,7 @@ def _coh_body(steps, poss):
             if got != fresh:
                 return H.fail('history %r, after step %d (%s, pos %d): fingerprint of %s is stale (%r, a fresh object with the same contents %r gives %r)'
                               % (steps, k, st, p, nm, got, [list(c) for c in o.cols()] if isinstance(o, Table) else list(o), fresh))
-            if before is not None and got != before[nm]:
+            if before is not None and nm in before and got != before[nm]:
                 return H.fail('history %r: read-only step %s changed the fingerprint of %s' % (steps, st, nm))
     return True
 
@@ -232,7 +238,7 @@ def obligations(tier):
                     smoke=[[0, 1, 0], [6, 8, 2]]))
     for s0 in range(len(STEPS)):
         obs.append(dict(name='coherent[H=2,first=%s]' % STEPS[s0], fn='h_coherent', config={'s0': s0, 'H': 2}, budget=90 if q else 300,
-                        bounds='first step fixed per job, every second step of the 20-step alphabet, every position; vector, table and a live column view compared with freshly built objects after every step',
+                        bounds='first step fixed per job, every second step of the 26-step alphabet, every position; vector, table and a live column view compared with freshly built objects after every step',
                         smoke=[[s0, 0, 0, 1, 1, 0], [s0, 12, 0, 0, 2, 0]]))
         if not q:
             obs.append(dict(name='coherent[H=3,first=%s]' % STEPS[s0], fn='h_coherent', config={'s0': s0, 'H': 3}, budget=1200,
